@@ -15,7 +15,10 @@ EXTENDS Integers, Sequences, FiniteSets
 CONSTANTS Threads,     \* thread identifiers
           Jobs,        \* job identifiers (a compiled filter with an input)
           Eval,        \* [Jobs -> Seq(output)]: what a job yields when it runs alone
-          MaxRuns      \* bound on the number of runs per thread (model checking only)
+          MaxRuns,     \* bound on the number of runs per thread (model checking only)
+          Cache        \* FALSE: the specification.  TRUE: a control - a process-wide cache filled by whichever job runs first
+                       \* and consulted by every run (what a lazily initialised static keyed too coarsely does); it must break
+                       \* RunsEqualIsolated, otherwise that invariant would not mean anything
 
 VARIABLES cur,      \* [Threads -> [job, pos] | "idle"]: the run in progress and the number of outputs pulled
           done,     \* [Threads -> Seq(<< job, outputs >>)]: completed runs
@@ -29,13 +32,16 @@ ConcInit == /\ cur = [t \in Threads |-> Idle] /\ done = [t \in Threads |-> <<>>]
 
 Start(t, j) == /\ cur[t] = Idle /\ Len(done[t]) < MaxRuns
                /\ cur' = [cur EXCEPT ![t] = [job |-> j, pos |-> 0]] /\ part' = [part EXCEPT ![t] = <<>>]
-               /\ UNCHANGED << done, shared >>
+               /\ shared' = (IF Cache /\ shared = "compiled" THEN j ELSE shared)
+               /\ UNCHANGED done
+\* what a run computes from: its own job - or, in the control, whatever the cache holds
+Source(t) == IF Cache /\ shared # "compiled" THEN shared ELSE cur[t].job
 \* pull the next output of the run of thread t: it depends on the job and the position only
-Step(t) == /\ cur[t] # Idle /\ cur[t].pos < Len(Eval[cur[t].job])
-           /\ part' = [part EXCEPT ![t] = Append(@, Eval[cur[t].job][cur[t].pos + 1])]
+Step(t) == /\ cur[t] # Idle /\ cur[t].pos < Len(Eval[Source(t)])
+           /\ part' = [part EXCEPT ![t] = Append(@, Eval[Source(t)][cur[t].pos + 1])]
            /\ cur' = [cur EXCEPT ![t].pos = @ + 1]
            /\ UNCHANGED << done, shared >>
-Finish(t) == /\ cur[t] # Idle /\ cur[t].pos = Len(Eval[cur[t].job])
+Finish(t) == /\ cur[t] # Idle /\ cur[t].pos = Len(Eval[Source(t)])
              /\ done' = [done EXCEPT ![t] = Append(@, << cur[t].job, part[t] >>)]
              /\ cur' = [cur EXCEPT ![t] = Idle] /\ part' = [part EXCEPT ![t] = <<>>]
              /\ UNCHANGED shared
@@ -46,5 +52,5 @@ IsPrefix(s, t) == Len(s) <= Len(t) /\ SubSeq(t, 1, Len(s)) = s
 RunsEqualIsolated ==
   /\ \A t \in Threads : cur[t] # Idle => IsPrefix(part[t], Eval[cur[t].job])
   /\ \A t \in Threads : \A i \in 1..Len(done[t]) : done[t][i][2] = Eval[done[t][i][1]]
-SharedIsConstant == shared = "compiled"
+SharedIsConstant == ~Cache => shared = "compiled"
 =============================================================================
